@@ -648,7 +648,34 @@ def rule_edge_roles(ctx: Ctx) -> None:
                              f"{qualname(fn)} splices the operation into edges [{A}, {B}] but takes its control register from edge `{ce}` and its target register from edge "
                              f"`{te}`: the node sits on the wires of the chosen edges while the operation names other registers, so a photon can receive its correction "
                              f"on a wire that is not its own (or before it was emitted)", func=qualname(fn), construct=f"{qualname(fn)}: operation registers not taken from its edges")
-    if n == 0:
+    # one-qubit moves: insert_at(gate, [E]) with gate = ops.<Gate>(..., register=R): R is the register of edge E
+    n1 = 0
+    for rel in (EVO, HYB):
+        m = repo.module(rel)
+        for fn in m.functions():
+            for c in [c for c in calls_in(fn) if call_attr(c) == "insert_at" and len(c.args) == 2 and isinstance(c.args[1], (ast.List, ast.Tuple)) and len(c.args[1].elts) == 1]:
+                g = deref(fn, c.args[0])
+                if not (isinstance(g, ast.Call) and (call_name(g) or "").startswith("ops.") and get_kw(g, "register") is not None):
+                    continue
+                n1 += 1
+                ctx.touch(m, fn)
+                A = norm(c.args[1].elts[0])
+                r = deref(fn, get_kw(g, "register"))
+                src = None
+                if isinstance(r, ast.Subscript) and isinstance(r.slice, ast.Constant) and r.slice.value == "reg" and isinstance(r.value, ast.Subscript) \
+                        and norm(r.value.value).endswith(".edges"):
+                    src = norm(r.value.slice)
+                if src == A:
+                    ctx.ok("move.edge-roles", m, c, what=f"{qualname(fn)}: the gate's register is the register of the edge it is inserted at")
+                elif src is not None or any(k in norm(r) for k in ("q_registers", ".register", "nodes[")) or \
+                        any(isinstance(x, ast.Call) and isinstance(x.func, ast.Name) and x.func.id in {d.name for d in ast.walk(fn) if isinstance(d, ast.FunctionDef)} for x in ast.walk(r)):
+                    ctx.fail("move.edge-roles", m, c,
+                             f"{qualname(fn)} splices a one-qubit gate into edge `{A}` but builds it on register `{short(r)}`: the wire is the edge's own register "
+                             f"(`dag.edges[{A}]['reg']`); behind a two-qubit operation the neighbouring operation's first register is the *other* qubit, so the "
+                             f"gate names one emitter and sits on another's wire", func=qualname(fn), construct=f"{qualname(fn)}: gate register not taken from its edge")
+                else:
+                    raise AnalysisError(f"{rel}::{qualname(fn)}: the register of the inserted one-qubit gate (`{short(r)}`) is not read from an edge; not decided")
+    if n == 0 or n1 < 2:
         raise AnalysisError("move.edge-roles: no two-qubit insertion built from edges found")
 
 
